@@ -27,10 +27,11 @@
     engine by [Environment(undefined=<factory that raises>)]).
 
     [outside] (= PyExc OtherPyError) marks behaviour that this model does not
-    describe (Python repr of dicts, tuples from dict iteration, floats, the
-    map filter's _NULL sentinel, non-ASCII case mapping, object identity of two
-    undefineds under StrictUndefined ...): it is an error outcome, never a
-    normal-looking value.  auto_escape is off.
+    describe (Python str()/repr of lists and dicts — where the repr of an
+    undefined prints its class name, known finding repr-of-undefined-in-container —,
+    tuples from dict iteration, floats, keyed sort/uniq, non-ASCII case mapping,
+    object identity of two undefineds under StrictUndefined ...): it is an
+    error outcome, never a normal-looking value.  auto_escape is off.
 
     Model file: definitions only.  Proofs: Proofs/Undefined_proofs.v. *)
 From LQ Require Export Base.Str.
